@@ -28,6 +28,7 @@ type Obligation struct {
 	Time   float64
 	Output string
 	Expect string // "unsat" normally, "sat" for canaries/covers
+	Alt    *Term  // a stronger goal tried first (the negated antecedent of an implication: the case does not arise on this exit)
 }
 
 type Closure struct {
@@ -55,6 +56,8 @@ type VC struct {
 	stack    []*ssa.Function
 	ghostEntry map[string]*Term
 	symCache   map[int]map[string]bool
+	topRets    []*retEdge // return edges of the function under proof
+	topFrame   *Frame
 }
 
 func newVC(p *Program, fn *ssa.Function) *VC {
@@ -132,6 +135,9 @@ type Frame struct {
 	entry  *State
 	curLoopHead *ssa.BasicBlock
 	curCallEnv  map[string]SVal
+	entryAlloc  int64          // allocation counter when this frame started
+	loopFrameFresh bool
+	freshLoops  map[*Loop]bool // loops executed under a "assigns fresh" frame: stores inside are checked
 }
 
 type retEdge struct {
@@ -398,6 +404,14 @@ func (fr *Frame) execLoop(l *Loop, entry []*Edge) []*Edge {
 	vc := fr.vc
 	invs := fr.invariantsFor(l)
 	inlined := fr.fn != vc.top
+	hasFrame := false
+	if fr.contract != nil {
+		for _, cl := range fr.contract.Clauses {
+			if cl.Kind == "loopframe" && cl.Loop == l.Ord {
+				hasFrame = true
+			}
+		}
+	}
 	if len(invs) == 0 || inlined {
 		// try exact unrolling
 		var exits []*Edge
@@ -471,7 +485,15 @@ func (fr *Frame) execLoop(l *Loop, entry []*Edge) []*Edge {
 			vc.wellFormed(hst, fr.env[phi])
 		}
 	}
+	if hasFrame {
+		if fr.freshLoops == nil {
+			fr.freshLoops = map[*Loop]bool{}
+		}
+		fr.freshLoops[l] = true
+		fr.loopFrameFresh = true
+	}
 	fr.havocLoopTargets(l, hst)
+	fr.loopFrameFresh = false
 	for _, cl := range invs {
 		vc.addFact(hst, fr.evalClause(cl, hst, fr.entryOr(hst), nil))
 	}
@@ -662,6 +684,11 @@ func (fr *Frame) havocLoopTargets(l *Loop, st *State) {
 		vc.addFact(st, Le(old, nv))
 	}
 	for k := range heapKeys {
+		if fr.loopFrameFresh && !all {
+			// declared frame: only objects allocated since the frame started may be written (checked at each store)
+			st.Heap[k] = HavocAbove(st.heapGet(k), fr.entryAlloc, VarB(freshName(k+"@loop"), heapSort(k), vc.allocN+1000000))
+			continue
+		}
 		st.Heap[k] = VarB(freshName(k+"@loop"), heapSort(k), vc.allocN+1000000)
 	}
 	if all {
